@@ -16,7 +16,7 @@ ASSUMPTIONS = [
 RULE = ("channels: ping host, speedtest host, reverse-proxy host, tunnel host with routing by markers/paths; HTTP/1.1 and HTTP/2; with and without a configured "
         "authenticator (no credentials sent); GET /Nmb.bin for N in {0, 1, 2, 3, 100(thorough), 101, 1000, +1, 01, 1.5, -1, empty}, other suffixes and methods; POST /upload.html "
         "with Content-Length in {absent, 0, 1, 1000, 70000, 120 MiB (thorough), 120 MiB + 1, 2^32, text}; /speed/ prefix on tunnel hosts with speedtest enabled/disabled; "
-        "reverse proxy with loopback origin x private connections allowed/refused, path mask on the tunnel host with/without Upgrade; slow-reading client; "
+        "downloads that take longer than the handler timeout (slow reader, 100-200 ms timeout); reverse proxy with loopback origin x private connections allowed/refused, path mask on the tunnel host with/without Upgrade; slow-reading client; "
         "non-trivial = every case; distinct = distinct request")
 
 
@@ -54,6 +54,8 @@ def gen_cases(rng, ctx):
                           ("4294967297", None)):
                 add(base(2), 6, "/%smb.bin" % n, expect=(200, ok * MIB) if ok else (400, 0), name="speedtest:download-%s" % (n or "empty"))
             add(base(2, delay=3), 6, "/2mb.bin", expect=(200, 2 * MIB), name="speedtest:download-slow-reader")
+            add(base(2, delay=20) + [200], 6, "/3mb.bin", expect=(200, 3 * MIB), name="speedtest:download-slower-than-the-handler-timeout")
+            add(base(2, delay=5) + [100], 6, "/2mb.bin", expect=(200, 2 * MIB), name="speedtest:download-slower-than-the-handler-timeout-2")
             add(base(2), 6, "/1mb.bi", expect=(400, 0), name="speedtest:bad-suffix")
             add(base(2), 6, "/speed/1mb.bin", expect=(200, MIB), name="speedtest:speed-prefix")
             add(base(2), 8, "/1mb.bin", expect=(400, 0), name="speedtest:put")
